@@ -164,13 +164,72 @@ def plans_part(ctx, cands, fresh, good, rng):
             json.dump({"plan": plan, "report": rep}, open(sp, "w"))
             jobs.append(("interleaved:" + shape, sp, pd, {"A": a, "B": b, "C": c}[rep], [cands[i].get("text") or surface.to_python(cands[i]) for i in (a, b, c)]))
         # (b) compile_script histories
+        # programs given as strings (compile_string), one after the other: each one alone in its own namespace
+        STR_A = ("from nada_dsl import *\n\ndef double(x):\n    return x + x\n\n\ndef nada_main():\n    p = Party(name='P0')\n"
+                 "    a = SecretInteger(Input(name='a', party=p))\n    return [Output(double(a), 'o', p)]\n")
+        STR_NO_ENTRY = ("from nada_dsl import *\n\ndef helper(x):\n    return x * x\n")
+        STR_USES_EARLIER_NAME = ("from nada_dsl import *\n\ndef nada_main():\n    p = Party(name='P0')\n"
+                                 "    b = SecretInteger(Input(name='b', party=p))\n    return [Output(double(b), 'o', p)]\n")
+        STR_SELF_CONTAINED = ("from nada_dsl import *\n\ndef nada_main():\n    p = Party(name='P1')\n"
+                              "    c = SecretInteger(Input(name='c', party=p))\n    d = PublicInteger(Input(name='d', party=p))\n    return [Output(c * d, 'o', p)]\n")
+        for tag, second in (("string-without-entry-point-after-one-with", STR_NO_ENTRY), ("string-using-a-name-of-an-earlier-string", STR_USES_EARLIER_NAME),
+                            ("string-after-another-string", STR_SELF_CONTAINED)):
+            pd = os.path.join(d, tag)
+            os.makedirs(pd, exist_ok=True)
+            json.dump({"plan": [["string", STR_A, "a"], ["string", second, "b"]], "report": "b"}, open(os.path.join(pd, "spec.json"), "w"))
+            json.dump({"plan": [["string", second, "b"]], "report": "b"}, open(os.path.join(pd, "spec_alone.json"), "w"))
+            jobs.append(("scripts:" + tag, os.path.join(pd, "spec.json"), pd, None, {"first (compile_string)": STR_A, "second (compile_string)": second}))
+            jobs.append(("scripts-alone:" + tag, os.path.join(pd, "spec_alone.json"), pd, None, {}))
+        # a file compiled, rewritten at once with a text of the same length, compiled again — with bytecode caching on,
+        # as it is by default (the other histories run with PYTHONDONTWRITEBYTECODE=1)
+        pd = os.path.join(d, "file-rewritten-same-size-bytecode-cache-on")
+        os.makedirs(os.path.join(pd, "p"), exist_ok=True)
+        rp = os.path.join(pd, "p", "prog.py")
+        SAME_V1 = ("from nada_dsl import *\n\n\ndef nada_main():\n    p = Party(name='P0')\n    a = SecretInteger(Input(name='a', party=p))\n"
+                   "    b = SecretInteger(Input(name='b', party=p))\n    c = a + b\n    return [Output(c, 'o', p)]\n")
+        SAME_V2 = SAME_V1.replace("c = a + b", "c = a * b")
+        open(rp, "w").write(SAME_V1)
+        json.dump({"plan": [["write", rp, SAME_V1, 100_000_000], ["script", rp, "v1"], ["write", rp, SAME_V2, 300_000_000], ["script", rp, "v2"]], "report": "v2"},
+                  open(os.path.join(pd, "spec.json"), "w"))
+        os.makedirs(os.path.join(pd, "alone", "p"), exist_ok=True)       # its own directory: the two runs are concurrent
+        rpa = os.path.join(pd, "alone", "p", "prog.py")
+        json.dump({"plan": [["write", rpa, SAME_V2, 300_000_000], ["script", rpa, "v2"]], "report": "v2"}, open(os.path.join(pd, "spec_alone.json"), "w"))
+        jobs.append(("scripts:file-rewritten-same-size-bytecode-cache-on", os.path.join(pd, "spec.json"), pd, None,
+                     {"p/prog.py (first)": SAME_V1, "p/prog.py (then, same length, within the same second)": SAME_V2, "environment": "bytecode caching on (no PYTHONDONTWRITEBYTECODE)"}, None, True))
+        jobs.append(("scripts-alone:file-rewritten-same-size-bytecode-cache-on", os.path.join(pd, "spec_alone.json"), pd, None, {}, None, True))
+        # the MIR dict returned by nada_dsl_to_nada_mir is kept by the caller while another program is compiled
+        pd = os.path.join(d, "returned-mir-held-while-another-program-compiles")
+        os.makedirs(pd, exist_ok=True)
+        open(os.path.join(pd, "first.py"), "w").write(STR_A)
+        open(os.path.join(pd, "second.py"), "w").write(STR_SELF_CONTAINED)
+        json.dump({"plan": [["trace", os.path.join(pd, "first.py"), "a"], ["compile_dict", "a"], ["trace", os.path.join(pd, "second.py"), "b"], ["compile", "b"]],
+                   "report": "a"}, open(os.path.join(pd, "spec.json"), "w"))
+        json.dump({"plan": [["trace", os.path.join(pd, "first.py"), "a"], ["compile_dict", "a"]], "report": "a"}, open(os.path.join(pd, "spec_alone.json"), "w"))
+        jobs.append(("scripts:returned-mir-held-while-another-program-compiles", os.path.join(pd, "spec.json"), pd, None,
+                     {"first.py (its MIR dict is kept)": STR_A, "second.py (compiled afterwards)": STR_SELF_CONTAINED}))
+        jobs.append(("scripts-alone:returned-mir-held-while-another-program-compiles", os.path.join(pd, "spec_alone.json"), pd, None, {}))
+        # the program's directory is ALREADY on sys.path (PYTHONPATH): compiling one program of it must not take it away
+        pd = os.path.join(d, "directory-already-on-the-path")
+        os.makedirs(os.path.join(pd, "lib"), exist_ok=True)
+        os.makedirs(os.path.join(pd, "app"), exist_ok=True)
+        open(os.path.join(pd, "lib", "shared_ops.py"), "w").write(HELPER_A.replace("def scale", "def shared_scale"))
+        open(os.path.join(pd, "lib", "prog_one.py"), "w").write(MAIN_AB.format(n="va").replace("from helpers import scale", "from shared_ops import shared_scale as scale"))
+        open(os.path.join(pd, "app", "prog_two.py"), "w").write(MAIN_AB.format(n="vb").replace("from helpers import scale", "from shared_ops import shared_scale as scale"))
+        json.dump({"plan": [["script", os.path.join(pd, "lib", "prog_one.py"), "one"], ["script", os.path.join(pd, "app", "prog_two.py"), "two"]], "report": "two"},
+                  open(os.path.join(pd, "spec.json"), "w"))
+        json.dump({"plan": [["script", os.path.join(pd, "app", "prog_two.py"), "two"]], "report": "two"}, open(os.path.join(pd, "spec_alone.json"), "w"))
+        jobs.append(("scripts:directory-already-on-the-path", os.path.join(pd, "spec.json"), pd, None,
+                     {"PYTHONPATH": "<dir>/lib", "lib/shared_ops.py": "...", "lib/prog_one.py": "compiled first", "app/prog_two.py": "imports shared_ops too"}, os.path.join(pd, "lib")))
+        jobs.append(("scripts-alone:directory-already-on-the-path", os.path.join(pd, "spec_alone.json"), pd, None, {}, os.path.join(pd, "lib")))
         # a file compiled (and failing), edited, compiled again under the same path in the same process
         pd = os.path.join(d, "rewritten-after-failure")
         os.makedirs(os.path.join(pd, "p"), exist_ok=True)
         rp = os.path.join(pd, "p", "prog.py")
         open(rp, "w").write(REWRITTEN_V1)
         json.dump({"plan": [["script", rp, "v1"], ["write", rp, REWRITTEN_V2], ["script", rp, "v2"]], "report": "v2"}, open(os.path.join(pd, "spec.json"), "w"))
-        json.dump({"plan": [["write", rp, REWRITTEN_V2], ["script", rp, "v2"]], "report": "v2"}, open(os.path.join(pd, "spec_alone.json"), "w"))
+        os.makedirs(os.path.join(pd, "alone", "p"), exist_ok=True)       # its own directory: the two runs are concurrent
+        rpa = os.path.join(pd, "alone", "p", "prog.py")
+        json.dump({"plan": [["write", rpa, REWRITTEN_V2], ["script", rpa, "v2"]], "report": "v2"}, open(os.path.join(pd, "spec_alone.json"), "w"))
         jobs.append(("scripts:file-rewritten-after-a-failed-compilation", os.path.join(pd, "spec.json"), pd, None, {"p/prog.py (first)": REWRITTEN_V1, "p/prog.py (then)": REWRITTEN_V2}))
         jobs.append(("scripts-alone:file-rewritten-after-a-failed-compilation", os.path.join(pd, "spec_alone.json"), pd, None, {}))
         for tag, files, order, rep in (
@@ -198,7 +257,12 @@ def plans_part(ctx, cands, fresh, good, rng):
             jobs.append(("scripts-alone:" + tag, sp0, pd, None, files))
 
         def one(job):
-            rc, out, err, dt = vlib.run([vlib.PY, os.path.join(vlib.VERIF, "tools", "run_history.py"), job[1]], 180, cwd=job[2], env=vlib.impl_env())
+            env = vlib.impl_env()
+            if len(job) > 5 and job[5]:      # an extra directory the user has on PYTHONPATH
+                env["PYTHONPATH"] = env["PYTHONPATH"] + os.pathsep + job[5]
+            if len(job) > 6 and job[6]:      # bytecode caching as by default
+                env.pop("PYTHONDONTWRITEBYTECODE", None)
+            rc, out, err, dt = vlib.run([vlib.PY, os.path.join(vlib.VERIF, "tools", "run_history.py"), job[1]], 180, cwd=job[2], env=env)
             ls = [l for l in out.splitlines() if l.startswith("{")]
             return json.loads(ls[-1]) if ls else {"exc": "HarnessFailure", "msg": vlib.clean_noise(err)[-300:]}
         with concurrent.futures.ThreadPoolExecutor(max_workers=vlib.NCPU) as ex:
@@ -227,7 +291,10 @@ def plans_part(ctx, cands, fresh, good, rng):
     # compile_script histories: the reported program after the history vs compiled alone (another process), up to renaming (Coq)
     sc = {j[0]: (j, r) for j, r in zip(jobs, res) if j[0].startswith("scripts")}
     tags = ("same-helper-name", "helper-named-like-earlier-program", "same-helper-package", "same-helper-namespace-package",
-            "helper-of-a-program-that-raised", "file-rewritten-after-a-failed-compilation")
+            "helper-of-a-program-that-raised", "file-rewritten-after-a-failed-compilation",
+            "string-without-entry-point-after-one-with", "string-using-a-name-of-an-earlier-string", "string-after-another-string",
+            "directory-already-on-the-path", "returned-mir-held-while-another-program-compiles",
+            "file-rewritten-same-size-bytecode-cache-on")
     items = [f"({mirprint.g_ioutcome(sc['scripts:' + t][1])}, {mirprint.g_ioutcome(sc['scripts-alone:' + t][1])})" for t in tags]
     text = (progrun.HEAD + "From NadaV.Spec Require Import MirSpec Equiv.\n"
             "Definition cases : list (ioutcome * ioutcome) :=\n  [" + ";\n   ".join(items) + "].\n"
